@@ -311,10 +311,21 @@ def install(eng, w):
             out.append(parts[0])
         return PathStr("/".join(out))
 
+    def _fn_name(n):
+        n = n.label if isinstance(n, PathStr) else n
+        if not isinstance(n, str):
+            raise Unsupported("fnmatch on a name that is not concrete")
+        return n
+
+    def fn_match(eng, name, pat):
+        # POSIX: normcase is the identity, so fnmatch == fnmatchcase (file names of the world are concrete strings)
+        import fnmatch as _fn
+        if not isinstance(pat, str):
+            raise Unsupported("fnmatch pattern %r" % (pat,))
+        return _fn.fnmatchcase(_fn_name(name), pat)
+
     def fn_filter(eng, names, pat):
-        if pat != "*.mo":
-            raise Unsupported("fnmatch pattern %r" % pat)
-        return VList([n for n in eng.iterate(names) if n.endswith(".mo")])
+        return VList([n for n in eng.iterate(names) if fn_match(eng, n, pat)])
 
     ident = stub(lambda eng, p_, *a: p_ if isinstance(p_, PathStr) else PathStr(str(p_)))
     def world_files():
@@ -378,7 +389,7 @@ def install(eng, w):
     log = ModuleStub("logging", {"getLogger": stub(lambda eng, *a: NoOp())})
     enum = ModuleStub("enum", {"IntEnum": VClass("IntEnum")})
     eng.ext_modules.update({
-        "casadi": casadi, "numpy": numpy, "os": os_mod, "pickle": pickle, "fnmatch": ModuleStub("fnmatch", {"filter": stub(fn_filter)}),
+        "casadi": casadi, "numpy": numpy, "os": os_mod, "pickle": pickle, "fnmatch": ModuleStub("fnmatch", {"filter": stub(fn_filter), "fnmatch": stub(fn_match), "fnmatchcase": stub(fn_match)}),
         "contextlib": ModuleStub("contextlib", {"suppress": stub(lambda eng, *excs: Suppress(excs))}), "itertools": ModuleStub("itertools", {"chain": stub(lambda eng, *a: VList([]))}),
         "logging": log, "typing": typing, "enum": enum, "re": ModuleStub("re", {}), "sys": ModuleStub("sys", {"maxsize": 2 ** 63 - 1}),
         "collections": CollectionsStub(), "pymoca": ModuleStub("pymoca", {"__version__": w.current_version}),
